@@ -10,8 +10,12 @@ sys.path.insert(0, str(ROOT))
 ALL = [f'C{i:02d}' for i in range(1, 21)]
 PENDING_REASON = 'no solver-based check registered for this property (yet); see DESIGN.md'
 
+READY = set((ROOT / 'tools' / 'ready.txt').read_text().split())
 checks, na = [], []
 for pid in ALL:
+    if pid not in READY:
+        na.append({'property_id': pid, 'reason': PENDING_REASON})
+        continue
     try:
         mod = importlib.import_module(f'checks.{pid}')
         e = mod.MANIFEST_ENTRY
